@@ -265,6 +265,14 @@ CaseResult run_case(Tape &t, long)
   memset(&opt, 0, sizeof(opt));
   opt.redirect.err.type = REPROC_REDIRECT_PIPE;
   opt.nonblocking = c.nonblocking;
+  // read scenarios: in a third of them an EARLIER stream is not a pipe (stdin discarded; when stderr is read, stdout
+  // discarded too) - the mode of the stream that is read must not depend on its neighbours
+  bool earlier_not_piped = c.scenario == 0 && (c.pending + (uint64_t) c.later_after + (uint64_t) c.stream) % 3 == 0;
+  if (earlier_not_piped) {
+    opt.redirect.in.type = REPROC_REDIRECT_DISCARD;
+    if (c.stream == 2) opt.redirect.out.type = REPROC_REDIRECT_DISCARD;
+    res.cls("earlier-stream-not-piped");
+  }
   opt.stop = { { REPROC_STOP_KILL, 5000 }, { REPROC_STOP_NOOP, 0 }, { REPROC_STOP_NOOP, 0 } };
   std::vector<uint8_t> input;
   if (c.scenario == 2) {
